@@ -374,6 +374,12 @@ public:
 			ar.swap(tmp);
 		}
 		catch(std::bad_alloc const &) {
+			// the new value can not be kept, but the entry it was meant to
+			// replace is superseded and must not be served any more
+			wrlock_guard lock(*access_lock);
+			pointer old_entry = primary.find(key);
+			if(old_entry != primary.end())
+				delete_node(old_entry);
 			return;
 		}
 
